@@ -14,6 +14,8 @@ Obligations (DESIGN.md C21), all over the 2^32 possible values, by intervals:
     pre-write registries and the operations run them before the backend write.
 Constants are the compiler-evaluated values from the item facts, never source text.
 """
+import re
+
 from .lib.hir import walk, unwrap, callee_of, callee_any, ends, short, def_of, tokens, has_token
 from .lib.x_plugins import Pipelines, Flow, success_exits, hook_fn, LIB
 
@@ -368,6 +370,13 @@ def run(ctx):
         if "::{closure#" in caller:
             closures.setdefault(caller.split("::{closure#")[0], set()).add(caller)
 
+    # dynamic dispatch / unresolved trait calls: over-approximate by every impl of that trait method in the crate
+    impls = {}
+    for caller in graph:
+        m_ = re.match(r"^kanidmd_lib::<.+ as ([\w:]+)(?:<.*>)?>::(\w+)$", caller.split("::{closure#")[0])
+        if m_:
+            impls.setdefault(LIB + "::" + m_.group(1) + "::" + m_.group(2), set()).add(caller.split("::{closure#")[0])
+
     def reach(roots):
         seen, todo, hits = set(), list(roots), []
         while todo:
@@ -377,6 +386,8 @@ def run(ctx):
             seen.add(f)
             for c in closures.get(f, ()):
                 todo.append(c)
+            for i in impls.get(f, ()):
+                todo.append(i)
             for t in graph.get(f, ()):
                 if any(p in t for p in RNG_CLOCK):
                     hits.append((f, t))
